@@ -445,9 +445,13 @@ class Interp:
 
     def inline_call(self, call, callee, st, fr):
         """-> list of (state, return value, exit) ; exit is None or ('raise', node)."""
-        args = self._bind_args(call, callee, st, fr)
+        unbound = isinstance(call.func, ast.Attribute) and isinstance(call.func.value, ast.Name) and call.func.value.id in self.repo.classes \
+            and call.func.value.id not in st.env
+        args = self._bind_args(call, callee, st, fr, unbound)
         recv = None
-        if isinstance(call.func, ast.Attribute) and callee.cls and callee.params and callee.params[0] == "self":
+        if unbound:
+            recv = args.get("self")
+        elif isinstance(call.func, ast.Attribute) and callee.cls and callee.params and callee.params[0] == "self":
             if isinstance(call.func.value, ast.Call) and isinstance(call.func.value.func, ast.Name) and call.func.value.func.id == "super":
                 recv = st.env.get("self")
             else:
@@ -501,9 +505,9 @@ class Interp:
                 return EnumSet(en[0], [en[1]])
             return Unk(ast.unparse(node))
 
-    def _bind_args(self, call, callee, st, fr):
+    def _bind_args(self, call, callee, st, fr, unbound=False):
         params = list(callee.params)
-        if callee.cls and params and params[0] == "self":
+        if callee.cls and params and params[0] == "self" and not unbound:
             params = params[1:]
         args = {}
         for i, a in enumerate(call.args):
@@ -607,6 +611,9 @@ class Interp:
         key = (fr.uid, ast.unparse(test))
         if key in st.memo:
             return [(st, st.memo[key], False)]
+        sk = self._semantic_key(test, st, fr)
+        if sk is not None and sk[0] in st.memo:
+            return [(st, st.memo[sk[0]] != sk[1], False)]
         res = []
         for truth in (True, False):
             s2 = st.copy()
@@ -614,11 +621,41 @@ class Interp:
             if ok is False:
                 continue
             s2.memo[key] = truth
+            if sk is not None:
+                s2.memo[sk[0]] = (truth != sk[1])
             res.append((s2, truth, True))
         if len(res) == 1:
             return [(res[0][0], res[0][1], False)]
         self.npaths += 1
         return res
+
+    def _semantic_key(self, test, st, fr):
+        """For `a <op> b` over polynomials: a memo key that identifies the comparison by its normal form
+        (so `i < len(x)` and `len(x) > i` and `not i >= len(x)` share one truth value on a path).
+        -> ((-2, kind, repr(poly)), negated) or None.  The key's first component -2 never equals a frame uid."""
+        neg = False
+        t = test
+        while isinstance(t, ast.UnaryOp) and isinstance(t.op, ast.Not):
+            neg = not neg
+            t = t.operand
+        if not (isinstance(t, ast.Compare) and len(t.ops) == 1 and isinstance(t.ops[0], (ast.Lt, ast.LtE, ast.Gt, ast.GtE))):
+            return None
+        a = self.eval(t.left, st, fr)
+        b = self.eval(t.comparators[0], st, fr)
+        if not (isinstance(a, Poly) and isinstance(b, Poly)):
+            return None
+        d = a - b
+        op = t.ops[0]
+        # normalise to  d < 0  or  d <= 0
+        if isinstance(op, ast.Lt):
+            kind, n2 = "lt", False
+        elif isinstance(op, ast.LtE):
+            kind, n2 = "le", False
+        elif isinstance(op, ast.Gt):      # d > 0  ==  not (d <= 0)
+            kind, n2 = "le", True
+        else:                             # d >= 0 ==  not (d < 0)
+            kind, n2 = "lt", True
+        return ((-2, kind + ":" + repr(d)), neg != n2)
 
     def _assigned_in(self, stmts):
         names, attrs = set(), set()
